@@ -1472,8 +1472,16 @@ RCP<const Set> Complement::set_intersection(const RCP<const Set> &o) const
 
 RCP<const Set> Complement::set_complement(const RCP<const Set> &o) const
 {
-    auto newuniv = SymEngine::set_union({o, universe_});
-    return container_->set_complement(newuniv);
+    // o \ (U \ C) = (o \ U) U (o n C)
+    RCP<const Set> outside = universe_->set_complement(o);
+    RCP<const Set> inside = SymEngine::set_intersection({o, container_});
+    if (is_a<EmptySet>(*outside))
+        return inside;
+    if (is_a<EmptySet>(*inside))
+        return outside;
+    if (is_a<Complement>(*outside) or is_a<Complement>(*inside))
+        return make_set_union({outside, inside});
+    return SymEngine::set_union({outside, inside});
 }
 
 ConditionSet::ConditionSet(const RCP<const Basic> &sym,
